@@ -42,3 +42,15 @@ Theorem C09_typecheck_step_exact_partial : forall c t o,
   (cs_no_debug_ops c && is_debugging_op (o_cls o) = false).
 Proof. exact typecheck_step_exact. Qed.
 Print Assumptions C09_typecheck_step_exact_partial.
+
+(* whole programs: a program is accepted iff no symbol is declared twice, the label / data layout
+   pass reports nothing (data segment within memory, program within the address space), and every
+   operation, met with the constants declared before it, passes the per-operation rules above —
+   no other source of rejection exists *)
+Theorem C09_program_accept_exact : forall c ops,
+  has_errors (snd (typecheck c ops)) = false <->
+  has_errors (check_redecl ops []) = false /\
+  has_errors (snd (get_labels c ops)) = false /\
+  steps_clean c (mktc (fst (get_labels c ops)) false (check_redecl ops [] ++ snd (get_labels c ops))) ops.
+Proof. exact program_accept_exact. Qed.
+Print Assumptions C09_program_accept_exact.
